@@ -89,8 +89,13 @@ static uint8_t loop_stop(m_ctx_t *c) {
     /* Publish loop stopped system message */
     tell_system_pubsub_msg(NULL, c, NULL, M_PS_CTX_STOPPED);
     
-    /* Flush pubsub msg to avoid memleaks */
-    m_iterate(c->modules, flush_pubsub_msgs, NULL);
+    /*
+     * Flush pubsub msg to avoid memleaks.
+     * A callback run by the flush may (de)register a module: the map iteration
+     * stops with -EACCES then, leaving the remaining modules unflushed. Start over
+     * (already flushed modules have nothing left to flush).
+     */
+    while (m_iterate(c->modules, flush_pubsub_msgs, NULL) == -EACCES);
     
     /* Stop FS */
     fs_stop(c);
